@@ -41,6 +41,7 @@ type Violation struct {
 	Decision []int32           `json:"decisions"`
 	Detail   string            `json:"detail,omitempty"`
 	Observed []string          `json:"observed,omitempty"`
+	Ghost    bool              `json:"ghost,omitempty"` // depends on ghost state of the file-system model
 }
 
 type PathResult struct {
@@ -94,10 +95,11 @@ type Exec struct {
 	// query. Variables introduced after the model was fetched read as 0; every
 	// constraint added to the path condition is evaluated under the model and
 	// drops it when it does not hold.
-	model      map[string]uint64
-	modelEvals int64
-	prefixVals []uint64 // concretize picks recorded along the prefix
-	takenVals  []uint64
+	model        map[string]uint64
+	modelEvals   int64
+	ghostQueried bool     // the harness read ghost state of the file-system model (dirty bits, events)
+	prefixVals   []uint64 // concretize picks recorded along the prefix
+	takenVals    []uint64
 }
 
 // forkItem is a sibling path still to be explored: its decision prefix and the
@@ -386,7 +388,7 @@ func (ex *Exec) Assert(label string, c *Term) {
 	r, m := ex.modelFor(q)
 	switch r {
 	case Sat:
-		ex.res.Violations = append(ex.res.Violations, Violation{Label: label, Kind: "assert", Inputs: m,
+		ex.res.Violations = append(ex.res.Violations, Violation{Label: label, Kind: "assert", Inputs: m, Ghost: ex.ghostQueried,
 			Decision: append([]int32(nil), ex.taken...), Observed: append([]string(nil), ex.res.Observed...)})
 	case Unknown:
 		ex.res.Inconclusive = append(ex.res.Inconclusive, "assert "+label+": solver unknown")
@@ -398,7 +400,7 @@ func (ex *Exec) Assert(label string, c *Term) {
 		switch rk {
 		case Sat:
 			okAll = false
-			ex.res.Violations = append(ex.res.Violations, Violation{Label: label, Kind: "assert", Known: k.id, Inputs: mk,
+			ex.res.Violations = append(ex.res.Violations, Violation{Label: label, Kind: "assert", Known: k.id, Inputs: mk, Ghost: ex.ghostQueried,
 				Decision: append([]int32(nil), ex.taken...), Observed: append([]string(nil), ex.res.Observed...)})
 		case Unknown:
 			okAll = false
